@@ -109,7 +109,7 @@ fn bits_strategy(k: FloatKind, radix: u32) -> BoxedStrategy<u64> {
         let e = if neg { -e } else { e };
         let v = r.powi(e);
         let b = if k.p == 53 { v.to_bits() } else { (v as f32).to_bits() as u64 };
-        let b = (b as i64 + d).max(1) as u64;
+        let b = (b as i64).wrapping_add(d).max(1) as u64;
         b.min(k.max_finite_bits())
     });
     let ints = prop_oneof![
@@ -121,7 +121,7 @@ fn bits_strategy(k: FloatKind, radix: u32) -> BoxedStrategy<u64> {
             for _ in 0..e {
                 v = v.saturating_mul(radix as u64);
             }
-            ((v as i64 + d).max(0) as u64) % (1u64 << k.p)
+            ((v as i64).wrapping_add(d).max(0) as u64) % (1u64 << k.p)
         }),
     ]
     .prop_map(move |i| if k.p == 53 { (i as f64).to_bits() } else { (i as f32).to_bits() as u64 });
